@@ -7,6 +7,7 @@ cd /repo || exit 9
 if [ -n "$(git status --porcelain --untracked-files=no)" ]; then echo "/repo not clean"; exit 9; fi
 if [ -f "$src" ]; then git apply $rev "$src" || exit 9; else git show "$src" | git apply $rev || exit 9; fi
 cd /verif
+export VERIF_EVIDENCE_DIR=/verif/.cache/evidence-patched
 for c in "$@"; do
   out=$(./check "$c" 2>&1); code=$?
   echo "== $c exit=$code :: $(echo "$out" | grep -c '^VIOLATION') violations :: $(echo "$out" | tail -1)"
